@@ -130,6 +130,10 @@ Extend == Len(chain) < MaxLen /\ \E g \in Gens : chain' = Append(chain, g)
 Spec == Init /\ [][Extend]_chain
 
 CancelPreserves == SameMap(Cancel(chain), chain)
+(* what SubsProofs.tla (TLAPS: chains of any length) assumes of the composition, checked here for the concrete one: the map of a
+   chain is the map of its first part after the map of the rest (a monoid homomorphism into the maps under composition) *)
+ApplyHom == \A k \in 0..Len(chain) : \A th \in Thetas :
+              Apply(chain, ThetaF(th)) = Apply(SubSeq(chain, 1, k), Apply(SubSeq(chain, k + 1, Len(chain)), ThetaF(th)))
 InvolutionsSquare == \A g \in Gens : SelfInverse(g) => \A th \in Thetas :
                         VecDef(ApplyOne(g, ThetaF(th))) => Apply(<<g, g>>, ThetaF(th)) = ThetaF(th)
 (* chain rule sanity: transferring along c then along the reversed chain of the same involutions is the identity *)
